@@ -522,11 +522,11 @@ end Parse
 
 /-! ### names and symbols that survive the PDA / TM text formats -/
 
-/-- state names of the PDA format: `\\w+`, not a keyword of the format -/
+/-- state names of the PDA format: `\w+`, not a keyword of the format -/
 def Parse.PdaNameOk (s : String) : Prop :=
   Parse.isWord s.toList = true ∧ s ∉ ["states", "final", "initial", "input_symbols", "stack_symbols", "epsilon"]
 
-/-- state names of the TM format: `\\w+`, not a keyword of the format -/
+/-- state names of the TM format: `\w+`, not a keyword of the format -/
 def Parse.TmNameOk (s : String) : Prop :=
   Parse.isWord s.toList = true ∧
     s ∉ ["states", "final", "initial", "input_symbols", "tape_symbols", "blank", "accept", "reject"]
@@ -1042,6 +1042,188 @@ theorem parse_print_pda_raw (P : SPDA) (h : PdaSymsOk P) (hQ : ∀ q, q ∈ P.Q 
       · exact newline_not_mem_kw_joinSp k5.newline_not_mem (fun n hn => (tokG n hn).newline_not_mem)
       · exact newline_not_mem_kw_joinSp k6.newline_not_mem (fun n hn => (tokE n hn).newline_not_mem)
     · exact newline_not_mem_transLines hts l hl
+
+/-! ### step 2: the PDA builder on that raw parse -/
+
+/-- the entries read back are exactly the printed ones -/
+theorem mem_pdaRaw_trans {P : SPDA} {t : String × Word × String} :
+    t ∈ (pdaRaw P).transitions ↔
+      ∃ p a u vs q v, ((p, a, u), vs) ∈ P.delta ∧ (q, v) ∈ vs ∧ t = (p, (a ++ "," ++ u ++ v).toList, q) := by
+  show t ∈ transOf (pdaTrans P) ↔ _
+  rw [mem_transOf]
+  constructor
+  · rintro ⟨t0, ht0, rfl⟩
+    obtain ⟨p, a, u, vs, q, v, he, hqv, rfl⟩ := mem_pdaTrans.mp ht0
+    exact ⟨p, a, u, vs, q, v, he, hqv, rfl⟩
+  · rintro ⟨p, a, u, vs, q, v, he, hqv, rfl⟩
+    exact ⟨_, mem_pdaTrans.mpr ⟨p, a, u, vs, q, v, he, hqv, rfl⟩, rfl⟩
+
+theorem PdaSymsOk.key_val {P : SPDA} (h : PdaSymsOk P) {p a u : String} {vs : List (String × String)} {q v : String}
+    (he : ((p, a, u), vs) ∈ P.delta) (ht : (q, v) ∈ vs) :
+    ch (a ++ "," ++ u ++ v).toList 0 = a ∧ ch (a ++ "," ++ u ++ v).toList 2 = u ∧ ch (a ++ "," ++ u ++ v).toList 3 = v := by
+  obtain ⟨_, _, _, _, _, ⟨ca, ha1, _⟩, ⟨cu, hu1, _⟩, ⟨cv, hv1, _⟩⟩ := h.entry he ht
+  exact ch_pda_label ha1 hu1 hv1
+
+/-- the round trip, with the parsed PDA described explicitly -/
+theorem parse_print_pda_explicit (P : SPDA) (h : PdaSymsOk P) (hk : (P.delta.map (·.1)).Nodup)
+    (hQ : ∀ q, q ∈ P.Q → Parse.PdaNameOk q) :
+    ∃ P', Parse.parsePda (Parse.printPda P).toList = .ok P' ∧ P'.valid = true ∧
+      P'.Q = sortStrings (dedup P.Q) ∧ P'.Sigma = dedup (sortStrings (dedup P.Sigma)) ∧
+      P'.Gamma = dedup (sortStrings (dedup P.Gamma)) ∧ P'.q0 = P.q0 ∧ P'.F = sortStrings (dedup P.F) ∧
+      P'.eps = P.eps ∧ P'.epsG = P.eps ∧
+      ∀ k t, t ∈ (P'.delta.lookup k).getD [] ↔ t ∈ (P.delta.lookup k).getD [] := by
+  obtain ⟨hq0, heS, heG, hF, hcl⟩ := (PDA.valid_iff' P).mp h.valid
+  have h0 := parse_print_pda_raw P h hQ
+  -- every entry read back, with its key and value
+  have hent : ∀ t, t ∈ (pdaRaw P).transitions → ∃ p a u vs q v, ((p, a, u), vs) ∈ P.delta ∧ (q, v) ∈ vs ∧
+      t.1 = p ∧ ch t.2.1 0 = a ∧ ch t.2.1 2 = u ∧ ch t.2.1 3 = v ∧ t.2.2 = q := by
+    intro t ht
+    obtain ⟨p, a, u, vs, q, v, he, hqv, rfl⟩ := mem_pdaRaw_trans.mp ht
+    obtain ⟨e1, e2, e3⟩ := h.key_val he hqv
+    exact ⟨p, a, u, vs, q, v, he, hqv, rfl, e1, e2, e3, rfl⟩
+  have h1 : commonChecks (pdaRaw P) [] isWord = .ok (pdaRaw P) := by
+    apply commonChecks_eq_ok
+    · intro e
+      have : P.q0 ∈ sortStrings (dedup P.Q) := mem_sortStrings_dedup.mpr hq0
+      have e' : sortStrings (dedup P.Q) = [] := e
+      rw [e'] at this; cases this
+    · intro q hq
+      show q ∈ sortStrings (dedup P.Q)
+      rw [mem_sortStrings_dedup]
+      simp only [usedStates, mem_dedup, List.mem_append, List.mem_flatMap] at hq
+      rcases hq with (hq | hq) | ⟨t, ht, hq⟩
+      · have : q ∈ [P.q0] := hq
+        simp only [List.mem_singleton] at this; subst this; exact hq0
+      · have : q ∈ sortStrings (dedup P.F) := hq
+        exact hF q (mem_sortStrings_dedup.mp this)
+      · obtain ⟨p, a, u, vs, q', v, he, hqv, e1, _, _, _, e5⟩ := hent t ht
+        have := h.entry he hqv
+        simp only [List.mem_cons, List.not_mem_nil, or_false] at hq
+        rcases hq with rfl | rfl
+        · rw [e1]; exact this.1
+        · rw [e5]; exact this.2.1
+    · intro q hq
+      have : q ∈ sortStrings (dedup P.Q) := hq
+      exact (hQ q (mem_sortStrings_dedup.mp this)).1
+    · rfl
+  have h2 : parseSymbol (pdaRaw P) "epsilon" 'ε' "_" = .ok P.eps := by rfl
+  have h3 : getSymbolSet (pdaRaw P) "input_symbols" (pdaUsedIn (pdaRaw P) P.eps) =
+      .ok (dedup (sortStrings (dedup P.Sigma))) := by
+    have hl : (pdaRaw P).items.lookup "input_symbols" = some (sortStrings (dedup P.Sigma)) := by rfl
+    have hsub : ssubset (pdaUsedIn (pdaRaw P) P.eps) (sortStrings (dedup P.Sigma)) = true := by
+      rw [ssubset_iff]
+      intro a ha
+      simp only [pdaUsedIn, mem_dedup, List.mem_filter, List.mem_map, ne_eq, decide_eq_true_eq] at ha
+      obtain ⟨⟨t, ht, rfl⟩, hne⟩ := ha
+      obtain ⟨p, a, u, vs, q', v, he, hqv, _, e2, _, _, _⟩ := hent t ht
+      have := (h.entry he hqv).2.2.1
+      rw [e2] at hne ⊢
+      rcases this with h' | h'
+      · exact mem_sortStrings_dedup.mpr h'
+      · exact absurd h' hne
+    unfold getSymbolSet
+    rw [hl]
+    simp [hsub]
+  have h4 : getSymbolSet (pdaRaw P) "stack_symbols" (pdaUsedSt (pdaRaw P) P.eps) =
+      .ok (dedup (sortStrings (dedup P.Gamma))) := by
+    have hl : (pdaRaw P).items.lookup "stack_symbols" = some (sortStrings (dedup P.Gamma)) := by rfl
+    have hsub : ssubset (pdaUsedSt (pdaRaw P) P.eps) (sortStrings (dedup P.Gamma)) = true := by
+      rw [ssubset_iff]
+      intro a ha
+      simp only [pdaUsedSt, mem_dedup, List.mem_filter, List.mem_flatMap, ne_eq, decide_eq_true_eq] at ha
+      obtain ⟨⟨t, ht, ha⟩, hne⟩ := ha
+      obtain ⟨p, a', u, vs, q', v, he, hqv, _, _, e3, e4, _⟩ := hent t ht
+      have := h.entry he hqv
+      simp only [List.mem_cons, List.not_mem_nil, or_false] at ha
+      rcases ha with rfl | rfl
+      · rw [e3] at hne ⊢
+        rcases this.2.2.2.1 with h' | h'
+        · exact mem_sortStrings_dedup.mpr h'
+        · exact absurd h' hne
+      · rw [e4] at hne ⊢
+        rcases this.2.2.2.2.1 with h' | h'
+        · exact mem_sortStrings_dedup.mpr h'
+        · exact absurd h' hne
+    unfold getSymbolSet
+    rw [hl]
+    simp [hsub]
+  have hw : wordsOk (dedup (sortStrings (dedup P.Sigma))) = true := by
+    simp only [wordsOk, List.all_eq_true]
+    intro a ha
+    exact (h.hS a (by simpa using ha)).isWord
+  have hvalid : PDA.valid
+      { Q := (pdaRaw P).states, Sigma := dedup (sortStrings (dedup P.Sigma)),
+        Gamma := dedup (sortStrings (dedup P.Gamma)), delta := pdaDelta (pdaRaw P).transitions,
+        q0 := initialOf (pdaRaw P), F := (pdaRaw P).final, eps := P.eps, epsG := P.eps : SPDA } = true := by
+    rw [PDA.valid_iff']
+    refine ⟨?_, ?_, ?_, ?_, ?_⟩
+    · show P.q0 ∈ sortStrings (dedup P.Q); exact mem_sortStrings_dedup.mpr hq0
+    · show P.eps ∉ dedup (sortStrings (dedup P.Sigma)); simpa using heS
+    · show P.eps ∉ dedup (sortStrings (dedup P.Gamma))
+      rw [h.heq] at heG; simpa using heG
+    · intro f hf
+      have : f ∈ sortStrings (dedup P.F) := hf
+      show f ∈ sortStrings (dedup P.Q)
+      exact mem_sortStrings_dedup.mpr (hF f (mem_sortStrings_dedup.mp this))
+    · intro e he
+      have he' : e ∈ pdaDelta (pdaRaw P).transitions := he
+      unfold pdaDelta at he'
+      have hkey := C16c.mem_foldl_add_key (fun t : String × Word × String => (t.1, ch t.2.1 0, ch t.2.1 2))
+        (fun t => (t.2.2, ch t.2.1 3)) _ _ he'
+      have hval := C16c.mem_foldl_add (fun t : String × Word × String => (t.1, ch t.2.1 0, ch t.2.1 2))
+        (fun t => (t.2.2, ch t.2.1 3)) _ _ he'
+      rcases hkey with ⟨e0, h0', _⟩ | ⟨t, ht, hkt⟩
+      · cases h0'
+      obtain ⟨p, a, u, vs, q, v, hd, hqv, e1, e2, e3, _, _⟩ := hent t ht
+      have hE := h.entry hd hqv
+      simp only [e1, e2, e3] at hkt
+      refine ⟨?_, ?_, ?_, ?_⟩
+      · show e.1.1 ∈ sortStrings (dedup P.Q)
+        rw [← hkt]; exact mem_sortStrings_dedup.mpr hE.1
+      · show e.1.2.1 ∈ dedup (sortStrings (dedup P.Sigma)) ∨ e.1.2.1 = P.eps
+        rw [← hkt]; simpa using hE.2.2.1
+      · show e.1.2.2 ∈ dedup (sortStrings (dedup P.Gamma)) ∨ e.1.2.2 = P.eps
+        rw [← hkt]; simpa using hE.2.2.2.1
+      · intro x hx
+        rcases hval x hx with ⟨e0, h0', _⟩ | ⟨t', ht', _, hvt⟩
+        · cases h0'
+        obtain ⟨p', a', u', vs', q', v', hd', hqv', _, _, _, e4, e5⟩ := hent t' ht'
+        have hE' := h.entry hd' hqv'
+        simp only [e4, e5] at hvt
+        show x.1 ∈ sortStrings (dedup P.Q) ∧ (x.2 ∈ dedup (sortStrings (dedup P.Gamma)) ∨ x.2 = P.eps)
+        rw [← hvt]
+        exact ⟨mem_sortStrings_dedup.mpr hE'.2.1, by simpa using hE'.2.2.2.2.1⟩
+  refine ⟨_, ?_, hvalid, rfl, rfl, rfl, rfl, rfl, rfl, rfl, ?_⟩
+  · rw [parsePda_eq, h0]
+    simp only [Except.bind, h1, h2, h3, h4, hw, Bool.not_true, Bool.false_eq_true, ↓reduceIte]
+    simp only [PDA.checked, hvalid]
+    rfl
+  · intro k t
+    show t ∈ ((pdaDelta (pdaRaw P).transitions).lookup k).getD [] ↔ _
+    unfold pdaDelta
+    rw [C16c.mem_lookup_foldl_add (fun t : String × Word × String => (t.1, ch t.2.1 0, ch t.2.1 2))
+      (fun t => (t.2.2, ch t.2.1 3))]
+    simp only [List.lookup_nil, Option.getD_none, List.not_mem_nil, false_or]
+    constructor
+    · rintro ⟨tr, htr, hkey, hval⟩
+      obtain ⟨p, a, u, vs, q, v, hd, hqv, e1, e2, e3, e4, e5⟩ := hent tr htr
+      simp only [e1, e2, e3] at hkey
+      simp only [e4, e5] at hval
+      subst hkey hval
+      rw [(C16c.mem_iff_lookup_of_nodup hk _ _).mp hd]
+      exact hqv
+    · intro ht
+      cases hl : P.delta.lookup k with
+      | none => rw [hl] at ht; cases ht
+      | some vs =>
+        rw [hl] at ht
+        have hd := mem_of_lookup_eq_some hl
+        obtain ⟨p, a, u⟩ := k
+        obtain ⟨q, v⟩ := t
+        obtain ⟨e1, e2, e3⟩ := h.key_val hd ht
+        refine ⟨(p, (a ++ "," ++ u ++ v).toList, q), mem_pdaRaw_trans.mpr ⟨p, a, u, vs, q, v, hd, ht, rfl⟩, ?_, ?_⟩
+        · simp only [e1, e2]
+        · simp only [e3]
 
 end Parse
 
